@@ -4,7 +4,7 @@ Require Extraction.
 Require Import ExtrOcamlBasic.
 From Coq Require Import List NArith.
 From FT Require Import Model.Base Model.Codec Model.Local Model.Records Model.Spsc Model.Collector
-     Model.System Model.Jaeger Oracles.OC12 Oracles.OJaeger Oracles.OTime Oracles.OSys.
+     Model.System Model.Jaeger Model.Reporters Oracles.OC12 Oracles.OJaeger Oracles.OTime Oracles.OSys Oracles.OReporters.
 Extraction Language OCaml.
 Extraction "model.ml"
   N.add N.mul N.sub N.eqb N.ltb N.leb N.of_nat N.to_nat N.compare
@@ -14,4 +14,5 @@ Extraction "model.ml"
   sys_init step run to_span_records
   report_datagrams encode_records P_C19_jaeger P_C20
   P_C18 order_ok dur_ok wall_ok
-  oracle.
+  oracle
+  P_C19_datadog P_C19_otel enc_dd_body rd_dd_body.
